@@ -92,7 +92,7 @@ func (c *Ctx) newCurHarness() *curHarness {
 }
 
 func (h *curHarness) call(sc mv, name string, args ...mv) (mv, mOutcome) {
-	f := h.c.Prog.LookupMethod(h.scT, nil, name)
+	f := h.c.lookupMethod(h.scT, name)
 	if f == nil {
 		return nil, mOutcome{kind: "opaque", why: "method " + name + " not found"}
 	}
